@@ -75,6 +75,9 @@ func c08DispatchFilters(names []string) []c08Filter {
 		}
 	}
 	add("**", "S/**", "**/u1", "**/Protocol:PROTOCOL_GRPC/**", "**/Protocol:PROTOCOL_GRPC/*/*/*/u1")
+	// the empty pattern (one empty component) and patterns with an empty component: no
+	// permutation has such a name, so run() must refuse them like any other unmatched pattern
+	add("", "S//**", "/S/**", "**/u1/")
 	for _, m := range c08Markers {
 		add("**/"+m+"/**", "**/"+m+"/*", "S/**/"+m+"/u1")
 	}
@@ -309,7 +312,7 @@ func TestVerifC08Dispatch(t *testing.T) {
 	defer r.Write()
 	r.Rule = "real run() with scripted in-process peers (default schedule) on config sets with Connect, gRPC and gRPC-Web cases x suites of 1-2 unary tests (thorough: also a five-suite mix) x client / server / both mode; " +
 		"pattern sets derived from the reported permutation names of each base: every exact name (with and without a gRPC-peer marker component), every name with all / all but suite+protocol+test / all but suite+marker+test components replaced by `*` (exact depth), " +
-		"`**/<marker>/**`, `**/<marker>/*`, `S/**/<marker>/u1` for the three markers, `**/TLS:false/u1`, `**/TLS:false/*/u1`, `**/TLS:false/**/u1`, `**/TLS:false/*`, `**/TLS:false/*/*`, `**`, `S/**`, `**/u1`, `**/Protocol:PROTOCOL_GRPC/**`; " +
+		"the empty pattern, `S//**`, `/S/**`, `**/u1/`, `**/<marker>/**`, `**/<marker>/*`, `S/**/<marker>/u1` for the three markers, `**/TLS:false/u1`, `**/TLS:false/*/u1`, `**/TLS:false/**/u1`, `**/TLS:false/*`, `**/TLS:false/*/*`, `**`, `S/**`, `**/u1`, `**/Protocol:PROTOCOL_GRPC/**`; " +
 		"each as the only --run and as the only --skip pattern, selected run x skip pairs and two patterns on one side. Oracle: set of test names that reached a client (and the names of the result table) = " +
 		"{ reported name | some run pattern (or none given) and no skip pattern matches under the reference glob }; a pattern matching no reported name must make run() refuse before anything is dispatched. " +
 		"Non-trivial: the filter selects a proper, non-empty subset; scenarios are distinct by construction."
